@@ -44,9 +44,11 @@ struct Facts {
     valid: bool,
 }
 fn facts(rings_in: &[Vec<IP>]) -> Facts {
-    let rings = norm_poly(rings_in);
+    // positions are kept (an error names a ring by its position among the rings as given); an EMPTY interior ring has
+    // no coordinates and no defect: geo skips it, and so does everything below
+    let rings: Vec<Vec<IP>> = rings_in.iter().map(|r| norm_ring(r)).collect();
     let n = rings.len();
-    let too_few: Vec<bool> = rings.iter().map(|r| r.len() < 4).collect();
+    let too_few: Vec<bool> = rings.iter().map(|r| !r.is_empty() && r.len() < 4).collect();
     let not_simple: Vec<bool> = rings.iter().map(|r| r.len() >= 2 && !simple_linestring(r)).collect();
     let ok = |i: usize| !too_few[i] && !not_simple[i];
     let mut hole_not_contained = vec![None; n];
@@ -79,7 +81,7 @@ fn facts(rings_in: &[Vec<IP>]) -> Facts {
             }
         }
     }
-    let valid = polygon_defect(&rings, false).is_none();
+    let valid = polygon_defect(&norm_poly(rings_in), false).is_none();
     Facts { rings, too_few, not_simple, hole_not_contained, on_line, on_area, valid }
 }
 fn role_idx(r: &RingRole) -> usize {
@@ -561,6 +563,16 @@ pub fn run(ctx: &Ctx, sh: &mut Shard) {
         if a.n_segments() > 80 {
             continue;
         }
+        // an empty interior ring now and then (geo skips it; the positions of the other rings in reported errors must
+        // still be those of the polygon as given, and every pair of the other rings must still be compared)
+        let a = match a {
+            IG::Polygon(mut rings) if rings.len() >= 2 && r.chance(1, 4) => {
+                let at = if r.chance(1, 2) { 1 } else { r.range(1, rings.len() as i64) as usize };
+                rings.insert(at, vec![]);
+                IG::Polygon(rings)
+            }
+            x => x,
+        };
         // an empty member (valid, touches nothing) in a MultiPolygon now and then: reported member indices must still
         // be positions in the MultiPolygon as given
         let a = match a {
